@@ -855,7 +855,7 @@ func run(c *core.Ctx) {
 	depth := c.Pick(3, 4)
 	if k.pooled {
 		debug.SetGCPercent(-1) // no spontaneous GC: the pools are emptied only by flushPools
-		depth = c.Pick(2, 3) // every sequence costs four GC cycles to empty the pools
+		depth = c.Pick(2, 3)   // every sequence costs four GC cycles to empty the pools
 	}
 	states := map[string]struct{}{}
 	n := len(k.ops)
